@@ -435,6 +435,27 @@ func (e EvmEngine) judgeRun(r *Run, dp *DeployedProgram, gas uint64, run, ref *e
 
 // siteOf names the precompile methods involved: those dropped (dead) and those kept.
 func (e EvmEngine) siteOf(dp *DeployedProgram, k, refK *big.Int) string {
+	// programs that both touch a token through the running EVM and convert it through a
+	// keeper-level (nested state DB) precompile path form one class (see C08 known finding)
+	running, keeperLevel := false, false
+	for _, nd := range dp.Spec.Nodes {
+		for _, a := range nd.Acts {
+			if a.K != "pre" {
+				continue
+			}
+			switch {
+			case strings.HasPrefix(a.T, "token:") || a.T == "wfx":
+				running = true
+			case a.T == "crosschain" && (a.M == "crossChain" || a.M == "increaseBridgeFee"):
+				running = true
+			case a.T == "crosschain" && (a.M == "bridgeCall" || a.M == "executeClaim" || a.M == "cancelSendToExternal"):
+				keeperLevel = true
+			}
+		}
+	}
+	if running && keeperLevel {
+		return "running-evm-token-access+keeper-level-conversion"
+	}
 	dead := map[string]bool{}
 	for _, nd := range dp.Spec.Nodes {
 		for _, a := range nd.Acts {
